@@ -11,4 +11,10 @@ CHECKS = {
         "level_note": "Trusts the harness's own comparison code and Rust's str slicing; covers only generated worlds/texts (counts in evidence).",
         "technique": "runtime oracle over public-API results (partition + surface comparison) under seeded workloads",
     },
+    "C02": {
+        "level_text": "Exploration: for every generated (dictionary, text) the whole Viterbi lattice is observed through a read-only hook and re-solved by an independent i64 DP with the harness's own copy of the connection matrix; reported node totals, EOS cost, back-pointer chain and per-morpheme cumulative costs must equal the recomputation, and every CSV row that matches must be a candidate. Held on the counted lattices only.",
+        "design_ref": "DESIGN.md 6/C02",
+        "level_note": "Trusts hook H4 to copy lattice state faithfully (observation only) and the harness DP; texts <=200 chars so i32 sums cannot overflow (that is C03's D10).",
+        "technique": "lattice hook + independent shortest-path recomputation (reference-model monitor)",
+    },
 }
